@@ -81,9 +81,15 @@ func c20Val(ty string) any {
 var c20ExtVals = map[string]func() any{}
 var c20ExtConcrete []string
 
-// c20Inhabits: a value of concrete type dyn can be stored in a variable of type ty
+// c20Inhabits: a variable of type ty can hold a value whose dynamic type is the concrete type
+// dyn (`v.(ty)` succeeds): the identical type, or an interface dyn implements.  (Not
+// AssignableTo: assigning a defined type to its unnamed literal converts the value.)
 func c20Inhabits(dyn, ty string) bool {
-	return c20RTypes[dyn].AssignableTo(c20RTypes[ty])
+	t := c20RTypes[ty]
+	if t.Kind() != reflect.Interface {
+		return dyn == ty
+	}
+	return c20RTypes[dyn].Implements(t)
 }
 
 // c20Impl: the `implements` relation of the menu as Go's reflect sees it (pairs type,
